@@ -32,9 +32,31 @@ def _realize(x):
 def _setup(engine, letters):
     def setup():
         import pyrepseq  # noqa
-        if engine == "hash_based":
+        if engine in ("hash_based", "lookupdb-history"):
             hc.set_alphabet(letters)
     return setup
+
+
+def _search(engine, seqs, k, cd, kw):
+    """the public entry point - or, for '<db>-history', ONE database object that has already answered the same queries with two other distance
+    functions (what it returns may depend on this call's distances only)"""
+    import pyrepseq
+    from pyrepseq import nn
+    if engine == "symdeldb-history":
+        kw = dict(kw)
+        qs = kw.pop("seqs2")
+        db = nn.SymdelDB(seqs, k)
+        db.lookup(qs)
+        db.lookup(qs, custom_distance="hamming")
+        return db.lookup(qs, custom_distance=cd, **kw)
+    if engine == "lookupdb-history":
+        kw = dict(kw)
+        qs = kw.pop("seqs2")
+        db = nn.LookupDB(seqs)
+        db.lookup(qs, max_edits=k)
+        db.lookup(qs, max_edits=k, custom_distance="hamming")
+        return db.lookup(qs, max_edits=k, custom_distance=cd, **kw)
+    return getattr(pyrepseq, engine)(seqs, max_edits=k, custom_distance=cd, **kw)
 
 
 def _body(engine, shape, qshape, k, letters, inf_radius):
@@ -54,7 +76,7 @@ def _body(engine, shape, qshape, k, letters, inf_radius):
             kw["max_custom_distance"] = radius
         if qshape is not None:
             kw["seqs2"] = qs
-        got = getattr(pyrepseq, engine)(seqs, max_edits=k, custom_distance=cd, **kw)
+        got = _search(engine, seqs, k, cd, kw)
         if not isinstance(got, list):
             return False, "not a list"
         lev = {}
@@ -115,7 +137,7 @@ def _replay(engine, shape, qshape, k, inf_radius):
             kw["max_custom_distance"] = radius
         if qshape is not None:
             kw["seqs2"] = list(qs)
-        got = getattr(pyrepseq, engine)(list(seqs), max_edits=k, custom_distance=cd, **kw)
+        got = _search(engine, list(seqs), k, cd, kw)
         want = set()
         for q, a in enumerate(qs):
             for r, b in enumerate(seqs):
@@ -175,6 +197,9 @@ def conditions(tier):
             out.append(_mk("kdtree", shape, k, letters="AY", inf_radius=inf))
         for shape, k in [((1, 1), 1), ((2, 1), 1), ((1, 1, 1), 1), ((1, 1), 2)]:
             out.append(_mk("hash_based", shape, k, letters="AC", inf_radius=inf))
+    out.append(_mk("symdeldb-history", (1, 1), 1, qshape=(1,)))
+    out.append(_mk("symdeldb-history", (2, 1), 1, qshape=(1, 2), inf_radius=True))
+    out.append(_mk("lookupdb-history", (1, 1), 1, letters="AC", qshape=(1,)))
     from harness import C14b
     out += C14b.conditions(tier)
     if tier == "thorough":
